@@ -14,11 +14,16 @@ REMOTE = [b'x@example.net', b'y@example.com', b'z@mail.example.net']
 REMOTE_BAD = [b'x@nomx.example.net', b'x@nullmx.example.net']
 SYNTAX = [b'foo', b'a@b', b'@example.org', b'a b@example.org', b'a@-', b'a@example..org']
 SENDERS = [b'a@example.net', b'b@example.com', b'alice@example.org', b'']
+# upper case anywhere and quoted local parts with brackets: the envelope carries the lower-cased address
+MIXED_SENDERS = [b'Alice@Example.ORG', b'B@EXAMPLE.com', b'"Order[Dept]"@Shop.Example.NET', b'"x[Y]z"@EXAMPLE.NET']
+MIXED_LOCAL = [b'Alice@Example.Org', b'BOB@example.org', b'List@EXAMPLE.ORG', b'Any@X.Sub.Example.Org']
+MIXED_REMOTE = [b'X@Example.NET', b'"Sales[EMEA]"@Mail.Example.COM', b'Y@EXAMPLE.com', b'"q[R]"@Example.Com']
 
 
 def rcpt(rng, kind=None):
     kind = kind or rng.choice(['ok', 'ok', 'ok', 'no', 'remote', 'remote', 'rbad', 'syntax', 'more', 'nobracket', 'literal'])
     if kind == 'literal': return b'RCPT TO:<' + rng.choice(LITERALS) + b'>\r\n'
+    if kind == 'mixed': return b'RCPT TO:<' + rng.choice(MIXED_LOCAL + MIXED_REMOTE) + b'>\r\n'
     if kind == 'ok': return b'RCPT TO:<' + rng.choice(LOCAL_OK) + b'>\r\n'
     if kind == 'no': return b'RCPT TO:<' + rng.choice(LOCAL_NO) + b'>\r\n'
     if kind == 'remote': return b'RCPT TO:<' + rng.choice(REMOTE) + b'>\r\n'
@@ -31,6 +36,7 @@ def rcpt(rng, kind=None):
 def mail(rng, kind=None):
     kind = kind or rng.choice(['ok', 'ok', 'ok', 'bounce', 'size', 'bigsize', 'body', 'unknownext', 'badext', 'syntax', 'localno', 'space'])
     s = rng.choice(SENDERS[:3])
+    if kind == 'mixed': return b'MAIL FROM:<' + rng.choice(MIXED_SENDERS) + b'>\r\n'
     if kind == 'ok': return b'MAIL FROM:<' + s + b'>\r\n'
     if kind == 'bounce': return b'MAIL FROM:<>\r\n'
     if kind == 'size': return b'MAIL FROM:<' + s + b'> SIZE=' + str(rng.choice([0, 1, 100, 199, 200, 201])).encode() + b'\r\n'
